@@ -179,6 +179,9 @@ func checkC03(c *Ctx) {
 	for _, m := range msgStructCases(c) {
 		cases = append(cases, m)
 	}
+	for _, m := range structCases(c) { // permuted / repeated / colliding-id fields of every type (hand-built inputs)
+		cases = append(cases, m)
+	}
 	c.TraceCheck(famStructC03, cases)
 	c.TraceCheck(famUFC03, ufCases(c, c.Pick(1500, 30000), true))
 	checkC03TTHeader(c)
